@@ -266,6 +266,11 @@ def _crash_run(case, ctx, holder, kind, point, control_final, control_stmts):
                 raise
             except (DBAPIError, Injected) as e:
                 raised = e
+        if raised is None and not (counter.fired or evf.fired):
+            # the planned position lies beyond what *this* build of the history emitted (the unit of work may order /
+            # batch objects of equal rank differently between two builds): the fault was never injected, no verdict
+            ctx.info("fault position not reached in the fault twin")
+            return "fault-not-reached"
         if raised is None:
             if kind == "b" and real_integrity:
                 # the planted row did not collide (statement order of this twin differs): not a verdict
@@ -354,6 +359,8 @@ def check(case, ctx):
                         ctx.exclude("failure of a statement emitted during flush finalization (known finding: identity map keeps the rolled-back pending objects)")
                         continue
                 r = _crash_run(case, ctx, holder, kind, pt, control_final, stmts)
+                if r == "fault-not-reached":
+                    classes.append("fault-not-reached")
                 if r == "checked":
                     ctx.info("crash_points_checked")
                     classes.append(f"kind-{kind}")
